@@ -7,6 +7,9 @@ import (
 	"encoding/binary"
 	"fmt"
 	"math"
+	"os"
+	"path/filepath"
+	"regexp"
 	"strconv"
 	"strings"
 	"sync"
@@ -1077,6 +1080,86 @@ func runSweep(c SweepCase, o *vh.Obs) *vh.Failure {
 	return nil
 }
 
+// ---------------------------------------------------------------- through the file system
+
+// FileCase: ply.Save / ply.Load must be the stream functions applied to a file.
+type FileCase struct {
+	Sweep SweepCase
+	Name  string
+}
+
+func genFile(t *rapid.T) FileCase {
+	return FileCase{Sweep: SweepCase{N: rapid.SampledFrom([]int{1, 2, 7, 100, 341, 342, 1000, 6000}).Draw(t, "n"), Format: rapid.IntRange(0, 2).Draw(t, "format"), Tri: rapid.Bool().Draw(t, "tri")},
+		Name: rapid.SampledFrom([]string{"a.ply", "B.PLY", "noext", "dots.in.name.ply", "sub/dir/a.ply"}).Draw(t, "name")}
+}
+
+func sweepMesh(c SweepCase) modeling.Mesh {
+	nv := c.N
+	var idx []int
+	if c.Tri {
+		nv = c.N + 2
+		for t := 0; t < c.N; t++ {
+			idx = append(idx, t, t+1, t+2)
+		}
+	} else {
+		for i := 0; i < nv; i++ {
+			idx = append(idx, i)
+		}
+	}
+	pos := make([]vector3.Float64, nv)
+	for i := range pos {
+		pos[i] = sweepPos(i)
+	}
+	topo := modeling.PointTopology
+	if c.Tri {
+		topo = modeling.TriangleTopology
+	}
+	return modeling.NewMesh(topo, idx).SetFloat3Attribute(modeling.PositionAttribute, pos)
+}
+
+func runFile(c FileCase, o *vh.Obs) *vh.Failure {
+	if c.Sweep.N < 1 || c.Sweep.N > 100000 || !regexp.MustCompile(`^[A-Za-z0-9_./]{1,30}$`).MatchString(c.Name) || strings.Contains(c.Name, "..") || strings.HasPrefix(c.Name, "/") {
+		o.Class("out-of-domain")
+		return nil
+	}
+	f := ((c.Sweep.Format % 3) + 3) % 3
+	o.NonTrivial()
+	o.Class("files/" + encName[f])
+	m := sweepMesh(c.Sweep)
+	want := &bytes.Buffer{}
+	if err := ply.Write(want, m, formats[f]); err != nil {
+		return vh.Failf("files/write-error", "Write: %v", err)
+	}
+	dir, cleanup, err := vh.TempDir("c04files")
+	if err != nil {
+		return vh.Failf("harness/tempdir", "%v", err)
+	}
+	defer cleanup()
+	path := filepath.Join(dir, c.Name)
+	if err := ply.Save(path, m, formats[f]); err != nil {
+		return vh.Failf("files/save-error", "Save(%q): %v", c.Name, err)
+	}
+	got, err := os.ReadFile(path)
+	if err != nil {
+		return vh.Failf("files/save-error", "Save(%q) left no readable file: %v", c.Name, err)
+	}
+	if !bytes.Equal(got, want.Bytes()) {
+		return vh.Failf("files/saved-bytes-differ", "Save(%q) of %d primitives wrote %d bytes, Write writes %d", c.Name, c.Sweep.N, len(got), want.Len())
+	}
+	loaded, err := ply.Load(path)
+	if err != nil || loaded == nil {
+		return vh.Failf("files/load-error", "Load of what Save just wrote: %v", err)
+	}
+	ref, err := ply.ReadMesh(bytes.NewReader(want.Bytes()))
+	if err != nil {
+		return vh.Failf("files/read-error", "ReadMesh of Write's bytes: %v", err)
+	}
+	if a, b := oracle.Snapshot(*loaded), oracle.Snapshot(*ref); a != b {
+		return vh.Failf("files/loaded-mesh-differs", "the mesh Load returns differs from what ReadMesh returns for the same bytes: %s", oracle.DiffSnap(b, a))
+	}
+	return nil
+}
+
 func TestC04(t *testing.T) {
 	vh.Drive(t, vh.Spec[Case]{Name: "default-writer", Quick: 40000, Thorough: 1500000, Gen: genCase, Run: runCase, Deadline: 20 * time.Second})
 	vh.Drive(t, vh.Spec[ConcCase]{Name: "concurrent-writers", Quick: 240, Thorough: 8000, Gen: genConc, Run: runConc, Repeat: 20})
@@ -1084,6 +1167,7 @@ func TestC04(t *testing.T) {
 	// ~1.2 GB and ~5 s per case; one case per encoding, on different shards
 	vh.Enumerate(t, vh.Spec[HugeCase]{Name: "huge-meshes", Run: runHuge, Deadline: 5 * time.Minute}, hugeCases())
 	vh.Enumerate(t, vh.Spec[SweepCase]{Name: "count-sweep", Run: runSweep}, sweepCases())
+	vh.Drive(t, vh.Spec[FileCase]{Name: "files", Quick: 400, Thorough: 12000, Gen: genFile, Run: runFile})
 }
 
 func FuzzC04(f *testing.F) {
